@@ -129,5 +129,10 @@ CClosed == cpc = "loop" /\ ~AnySender /\ cpc' = "done"
 \* the stop flag raised from outside the pipeline: a signal at any instant (the error cap and fatal errors raise it through CRecv)
 ExtStop == ~stop /\ stop' = TRUE /\ U(<< rpc, rlen, qRA, rcvMain, rcvA, rcvW, apc, arem, vorder, qV, vSend, vpc, wpc, wout, mpc, cpc >>)
 
+\* Which consumers of the reader's queue exist is decided by the command alone (lib.rs process()): a check or a view has the analysis thread and no writer,
+\* whatever filter, output destination or statistics option comes with it (an output destination next to a check or view is documented as ignored);
+\* without a command a filter makes it a filtered-writing run (to the file given, else to stdout), and without either nobody consumes.
+ModeOf(o) == IF o.cmd = "check" THEN "check" ELSE IF o.cmd = "view" THEN "view" ELSE IF o.filter # "none" THEN "write" ELSE "none"
+
 AllDone == rpc = "done" /\ apc = "done" /\ wpc = "done" /\ mpc = "done" /\ cpc = "done" /\ \A l \in Spawned : vpc[l] = "done"
 ===============================================================================
